@@ -145,8 +145,9 @@ def image_file(level, data, header=None, line=None, raw_lines=None):
     rec = signal_data.signal_data_record if level == "1.1" else processed_data.processed_data_record
     for i in range(n):
         v = {"preamble": preamble(i + 2, 50, 10 if level == "1.1" else 11, 18, 20, rs), "sar_image_data_line_number": i + 1,
-             "sensor_acquisition_date": {"year": 2020, "day_of_year": 60, "milliseconds": 1000 * i},
-             "sar_channel_id": 1, "sensor_acquisition_date_microseconds": 1000000 * i}
+             # line times are NOT increasing (descending, the last line again later): offsets relative to the first line have both signs
+             "sensor_acquisition_date": {"year": 2020, "day_of_year": 60, "milliseconds": 1000 * ((n - i) if i < n - 1 else 2 * n)},
+             "sar_channel_id": 1, "sensor_acquisition_date_microseconds": 1000000 * ((n - i) if i < n - 1 else 2 * n) + 7}
         v.update((line(i) if callable(line) else line) or {})
         b, _ = build(rec, v, {})
         assert len(b) == hl, (len(b), hl)
